@@ -1,11 +1,13 @@
 """C29 - SMGen either refuses a design or returns valid sequences.
 
-E1 x E2: single- and multi-block designs (strata S1, S1x, S2, S2s, S4, S6 - including every constraint class SMGen does not
+E1 x E2 (+ E3): single- and multi-block designs (strata S1, S1x, S2, S2s, S4, S6 - including every constraint class SMGen does not
 implement, MinimumTrials, Repeat/Merge/Nest wrappers) x every schedule of SMGen's random() draws within a deviation bound
 of the default (all-zero) schedule (the scripted random() returns a probe whose multiplication reveals the arity of
 int(random()*n), so branching is exact), horizon on draws per execution, x timer events (the threading.Timer is replaced
 by a recording fake; its handler is fired at no draw / at one scripted draw position, with its exception swallowed exactly
 as a timer thread would).
+E3: SMGen keeps module-level state, so every ordered pair and triple of a 6-design pool (plain, weighted derived level crossed,
+transition crossed, weighted basic, 2x3, direction-sensitive weighted transition) is also run as a call history in one process.
 Oracle: the outcome is a refusal (an Exception raised by SMGen's own _cexit, i.e. type(e) is Exception) or every returned
 sequence is valid for the design (reference set / membership oracle: documented trial count, crossing with weights,
 derived levels, every constraint); any other exception type is an internal failure.
@@ -27,12 +29,80 @@ DEV = {'quick': 1, 'thorough': 2}
 CAP = {'quick': 150, 'thorough': 3000}
 
 
+def history_pool():
+    from vt import gen
+    A = gen.basic('A', 2); Bf = gen.basic('B', 2); C = gen.basic('C', 3); Aw = gen.basic('A', 2, [2, 1])
+    fm0 = {'A': A, 'B': Bf}
+    Ww = gen.within('W', ['A', 'B'], fm0, gen.same, weights=[2, 1])
+    TA = gen.window('TA', ['A'], fm0, 2, gen.same, kind='transition', start=1)
+    TX = gen.window('TX', ['A'], fm0, 2, lambda k: 0 if (k[0][-1] == '0' and k[1][-1] == '1') else 1, kind='transition', start=1, weights=[1, 2])
+    return [
+        {'factors': [A, Bf], 'block': gen.cross(['A', 'B'], ['A', 'B'])},
+        {'factors': [A, Bf, Ww], 'block': gen.cross(['A', 'B', 'W'], ['B', 'W'])},
+        {'factors': [A, Bf, TA], 'block': gen.cross(['A', 'B', 'TA'], ['TA'])},
+        {'factors': [Aw, Bf], 'block': gen.cross(['A', 'B'], ['A'])},
+        {'factors': [A, Bf, C], 'block': gen.cross(['A', 'B', 'C'], ['A', 'C'])},
+        {'factors': [A, Bf, TX], 'block': gen.cross(['A', 'B', 'TX'], ['B', 'TX'])},
+    ]
+
+
 def items(tier, seed):
-    return dsw.design_items(STRATA, tier, seed, QUICK_CAPS)
+    import itertools
+    out = dsw.design_items(STRATA, tier, seed, QUICK_CAPS)
+    n = len(history_pool())
+    # E3: call histories in ONE process (SMGen keeps module-level state between calls): all ordered pairs, and all triples
+    for h in itertools.product(range(n), repeat=2):
+        out.append({'kind': 'history', 'history': list(h), 'tier': tier})
+    for h in itertools.product(range(n), repeat=3):
+        if tier == 'thorough' or (h[0] != h[1] and h[1] != h[2]):
+            out.append({'kind': 'history', 'history': list(h), 'tier': tier})
+    return out
+
+
+def run_history(item):
+    import random
+    import sweetpea as sp
+    from vt import ref as R, build as B
+    pool = history_pool()
+    viols = []
+    calls = 0
+    random.seed(11)
+    answered = 0
+    for pos, i in enumerate(item['history']):
+        spec = pool[i]
+        objs, block = core.quiet(B.build, spec)
+        checker = R.Checker(spec)
+        with seams.smgen_seams(None):
+            try:
+                res = core.quiet(sp.synthesize_trials, block, 2, sp.SMGen)
+            except Exception as e:
+                if type(e) is Exception:
+                    continue
+                viols.append(core.viol('internal_error', {'kind': 'history', 'exc': type(e).__name__, 'position': pos}, history=item['history'],
+                                       message=str(e)[:160]))
+                break
+        calls += 1
+        try:
+            tup = dsw.tuples(res, checker.design)
+        except (KeyError, IndexError) as e:
+            viols.append(core.viol('malformed_result', {'kind': 'history', 'position': pos}, history=item['history']))
+            break
+        bad = [s for s in tup if not checker.valid(s)]
+        answered += 1
+        if bad:
+            viols.append(core.viol('invalid_sequence_after_earlier_calls', {'kind': 'history', 'position': pos, 'design': i,
+                                                                            'after': item['history'][pos - 1] if pos else -1},
+                                   history=item['history'], example=bad[0], T_ref=checker.Ts))
+            break
+    if viols:
+        return core.bad(viols, states=len(item['history']), transitions=max(1, calls), nontrivial=True, outcome=['history', answered])
+    return core.ok(states=len(item['history']), transitions=max(1, calls), validated=answered, nontrivial=answered >= 2, outcome=['history', answered])
 
 
 def run_item(item):
     import sweetpea as sp
+    if item.get('kind') == 'history':
+        return run_history(item)
     c, sk = dsw.setup(item['spec'], item['tier'], fallback_checker=True)
     if sk:
         return sk
@@ -107,4 +177,7 @@ def finalize(items_, results, tier):
             'executions_cut_at_horizon': sum(r.get('horizon_hits', 0) for r in results)}
 
 
-sample_of = dsw.sample_of
+def sample_of(item, res):
+    if item.get('kind') == 'history':
+        return {'call_history_of_pool_designs': item['history'], 'explored': res.get('outcome')}
+    return dsw.sample_of(item, res)
